@@ -85,9 +85,40 @@ def _axis(draw, max_rows, why=None, fine=False):
     return ax
 
 
+def _inexact_grids():
+    """(cutoff, nr) from round numbers for which cutoff / (cutoff/(nr-1)) - or the same without the first step - does
+    not come back as the whole number it stands for in floating point: whatever derives the number of rows from such
+    a quotient (a ceil(), an arange(), a while-loop on the sum) gets it wrong there"""
+    above, other = [], []
+    for cut in ("2.5", "5", "6.5", "7.5", "10", "12", "15", "20"):
+        for nr in (51, 101, 201, 251, 501, 1001, 2001):
+            c = float(cut)
+            dr = c / (nr - 1)
+            if (c - dr) / dr > nr - 2 or c / dr > nr - 1:
+                above.append((cut, nr))
+            elif (c - dr) / dr != nr - 2 or c / dr != nr - 1 or dr * (nr - 1) != c:
+                other.append((cut, nr))
+    mixed = []
+    for i in range(max(len(above), len(other))):
+        mixed += above[i:i + 1] + other[i:i + 1]
+    return mixed
+
+
+INEXACT_GRIDS = _inexact_grids()
+
+
 @st.composite
-def _case(draw, max_rows, why=None, targets=None, fine=False, variables=False):
+def _inexact_axis(draw):
+    cut, nr = draw(st.sampled_from(INEXACT_GRIDS))
+    return {"kind": draw(st.sampled_from(["nr_cutoff", "cutoff_dr", "nr_dr"])), "dr": dec_str(Decimal(cut) / (nr - 1)), "nr": nr,
+            "cutoff": dec_str(Decimal(cut))}
+
+
+@st.composite
+def _case(draw, max_rows, why=None, targets=None, fine=False, variables=False, inexact=False):
     target = draw(st.sampled_from(targets or TARGETS))
+    if inexact:
+        return {"r": draw(_inexact_axis()), "rho": draw(_inexact_axis()), "target": target, "inexact": True}
     if fine:
         return {"r": draw(_axis(max_rows, None, True)), "rho": draw(_axis(max_rows, None, True)), "target": target, "fine": True}
     if why:
@@ -113,6 +144,7 @@ def strata(tier):
     return [("small", _case(600), 7), ("large", _case(20000), 3),
             ("row_iterators", _case(600, None, ["GULP", "excel", "excel_eam", "excel_eam_fs"]), 3),
             ("variables_named_like_options", _case(600, variables=True), 1.5),
+            ("inexact_quotients", _case(600, None, ["LAMMPS", "GULP", "setfl", "excel", "DL_POLY_EAM", "setfl_fs", "eam_adp"], inexact=True), 2),
             ("fine_steps", _case(60, None, ["GULP", "excel", "setfl", "setfl_fs", "excel_eam", "eam_adp"], True), 2)] + [("reject:" + w, _case(60, w), 0.25) for w in WHYS]
 
 
@@ -306,6 +338,8 @@ def check_case(case):
     rejecting = wr == "reject" or wrho == "reject"
     if case.get("fine"):
         cls.append("fine_steps")
+    if case.get("inexact"):
+        cls.append("grid:inexact_quotient:" + target)
     if case.get("variables"):
         given = set(n for n, _ in _entries("r", case["r"])[0]) | (set(n for n, _ in _entries("rho", case["rho"])[0]) if target in EAM else set())
         cls.append("variables_named_like_options" + (":not_given_in_tabulation" if any(n not in given and n != "rmax" for n, _ in case["variables"]) else ""))
